@@ -1139,12 +1139,23 @@ def parse(
 
             # Note that we do an 'INSERT OR REPLACE' because concurrent access
             # might mean two processes/threads try to insert an entry
-            cursor.execute("BEGIN TRANSACTION;")
-            cursor.execute(
-                "INSERT OR REPLACE INTO models (txt_hash, pymoca_version, data, last_hit) VALUES (?, ?, ?, ?)",
-                (txt_hash, pymoca_version, pickled_data, _microseconds_since_epoch()),
-            )
-            conn.commit()
+            try:
+                cursor.execute("BEGIN TRANSACTION;")
+                cursor.execute(
+                    "INSERT OR REPLACE INTO models (txt_hash, pymoca_version, data, last_hit) VALUES (?, ?, ?, ?)",
+                    (txt_hash, pymoca_version, pickled_data, _microseconds_since_epoch()),
+                )
+                conn.commit()
+            except sqlite3.DatabaseError as e:
+                if "locked" in str(e):
+                    conn.close()
+                    raise
+                # The model was parsed; not being able to store it (e.g. because the table
+                # was replaced since this process checked it) must not fail the call.
+                # Forget the earlier check so that the database is validated again.
+                logger.warning(f"Could not store model with hash '{txt_hash}' in the cache: {e}")
+                if hasattr(parse, "initialized_dbs"):
+                    parse.initialized_dbs.discard(full_db_path)
 
     conn.close()
 
